@@ -308,7 +308,7 @@ class ModuleState:
                     pass
 
 
-def run_native(h: Harness, params, inputs, step_limit=None):
+def run_native(h: Harness, params, inputs, step_limit=None, measure=False):
     """run the harness natively on concrete inputs; returns NativeOutcome(kind in return/raise/budget/assume/checkfail)"""
     ModuleState.restore()
     ctx = NativeCtx(inputs, step_limit or h.native_step_limit)
@@ -317,7 +317,7 @@ def run_native(h: Harness, params, inputs, step_limit=None):
     Engine.current = None
     import tracemalloc
 
-    measure = h.budget_violation
+    measure = measure and h.budget_violation  # allocation accounting is slow: only when a budget overrun is being confirmed
     import signal
     import threading
 
